@@ -329,10 +329,12 @@ def check_return(ctx, cfg, seed_row, point_row, t_ret, what):
     best = min(admissible, key=lambda a: float(np.max(np.abs(a[1] - point_row))))
     err = float(np.max(np.abs(best[1] - point_row)))
     terr = abs(best[0] - t_ret)
-    if err > tol or terr > 10 * tol / max(amp, 1e-3) + 10 * tol:
+    calt = _calibration()["O3t"]["symplectic" if cfg["method"] == "symplectic" else "fixed"]
+    ttol = calt["floor"] + calt["K"] * cfg["dt"] ** calt["r"]
+    if err > tol or terr > ttol:
         raise Violation("C14/O3-not-the-return", f"{what}: seed {seed_row.tolist()} -> point {point_row.tolist()} at t={t_ret:.6f}; reference first "
                                                  f"return in the documented direction is {best[1].tolist()} at t={best[0]:.6f} "
-                                                 f"(|dx|={err:.3e}, |dt|={terr:.3e}, bound {tol:.3e})")
+                                                 f"(|dx|={err:.3e}, |dt|={terr:.3e}, bounds {tol:.3e} / {ttol:.3e})")
     ctx.probe("o3_pairs_checked")
     return err
 
